@@ -3,6 +3,7 @@ from __future__ import annotations
 
 import ast
 
+from sa.astx import dotted
 from sa.selftest import Mutant, Silent
 from sa.source import AnalysisError, methods
 from sa.props._lib_b import BIG, Interp, Spec, Unsupported, exit_check, fifo_rule, make_state, report_interp
@@ -109,229 +110,243 @@ def check(ctx):
     interp = Interp(mod, cls, spec, MODNAME)
     ms = methods(cls)
 
-    # =============================================================== put
-    put = ctx.func(DEFER, "DeferredQueue.put")
-    qp = Q + ".put"
-    params = [a.arg for a in put.args.posonlyargs + put.args.args][1:]
-    ctx.need(len(params) == 1, "DeferredQueue.put(self, obj)")
-    OBJ = ("obj", "the object put")
-    runs = _run_all(interp, put, spec, {params[0]: OBJ})
-    exit_check(ctx, interp, spec, qp, [f for _, fs in runs for f in fs])
-    rows = {}
-    bounds = {}
-    for fields, finals in runs:
-        W = fields["waiting"][1] > 0
-        S = fields["size"] == ("none",)
-        for f in finals:
-            L, lnode, lbad = _limit_decision(f, "len(self.pending)", "self.size", qp)
-            if lnode is not None:
-                bounds.setdefault(ctx.construct(qp, lnode), (lbad, f))
-            if lbad:
-                continue
-            before = [e for e in f.log[: next((i for i, e in enumerate(f.log) if e[0] == "callout"), len(f.log))]]
-            fires = [e for e in f.log if e[0] == "fire" and e[4] == OBJ and e[3] == "callback"]
-            stores = [e for e in f.log if e[0] == "listop" and e[2] == "pending" and e[3] in ("append", "appendleft") and e[4] == OBJ]
-            other_stores = [e for e in f.log if e[0] == "listop" and e[3] in ("append", "appendleft") and e[4] == OBJ and e[2] != "pending"]
-            mutations = [e for e in before if e[0] == "listop"]
-            if f.exit[0] == "raise":
-                actual = "raise " + f.exit[1]
-            elif len(fires) == 1 and not stores:
-                actual = "deliver"
-            elif len(stores) == 1 and not fires:
-                actual = "store"
-            else:
-                actual = f"consumed {len(fires) + len(stores)} times"
-            if W:
-                expected = "deliver"
-            elif S:
-                expected = "store"
-            elif L is None:
-                expected = "consult-limit"
-            else:
-                expected = "raise QueueOverflow" if L else "store"
-            row = (W, S, L)
-            node = f.exit[2]
-            key = (row, expected)
-            ok = actual == expected and not other_stores
-            detail = None
-            if ok and actual == "deliver":
-                rec = f.dfrs[fires[0][2]]
-                if rec["origin"][:2] != ("popped", "waiting"):
-                    ok, detail = False, "the object is delivered to a Deferred that was not taken out of `waiting`"
-                elif rec["origin"][2] != "first":
-                    ok, detail = False, "the object is delivered to the newest waiting get, not the oldest"
-            if ok and actual.startswith("raise") and mutations:
-                ok, detail = False, "QueueOverflow is raised after the queue was already modified"
-            if not ok and detail is None:
-                if expected == "consult-limit":
-                    detail = ("with no waiting get and a size limit set, the outcome does not depend on len(pending) vs size: "
-                              f"put() does '{actual}' without consulting the limit")
+    # cancellers installed anywhere in the class (found syntactically so that an unreadable get() cannot hide them)
+    declared = set()
+    for c in ast.walk(cls):
+        if isinstance(c, ast.Call) and (dotted(c.func) or "").split(".")[-1] == "Deferred":
+            ce = next((k.value for k in c.keywords if k.arg == "canceller"), c.args[0] if c.args else None)
+            if ce is not None and (dotted(ce) or "").startswith("self.") and dotted(ce)[5:] in ms:
+                declared.add(dotted(ce)[5:])
+    cancellers = set(declared)
+    with ctx.section("put"):
+        # =============================================================== put
+        put = ctx.func(DEFER, "DeferredQueue.put")
+        qp = Q + ".put"
+        params = [a.arg for a in put.args.posonlyargs + put.args.args][1:]
+        ctx.need(len(params) == 1, "DeferredQueue.put(self, obj)")
+        OBJ = ("obj", "the object put")
+        runs = _run_all(interp, put, spec, {params[0]: OBJ})
+        exit_check(ctx, interp, spec, qp, [f for _, fs in runs for f in fs])
+        rows = {}
+        bounds = {}
+        for fields, finals in runs:
+            W = fields["waiting"][1] > 0
+            S = fields["size"] == ("none",)
+            for f in finals:
+                L, lnode, lbad = _limit_decision(f, "len(self.pending)", "self.size", qp)
+                if lnode is not None:
+                    bounds.setdefault(ctx.construct(qp, lnode), (lbad, f))
+                if lbad:
+                    continue
+                before = [e for e in f.log[: next((i for i, e in enumerate(f.log) if e[0] == "callout"), len(f.log))]]
+                fires = [e for e in f.log if e[0] == "fire" and e[4] == OBJ and e[3] == "callback"]
+                stores = [e for e in f.log if e[0] == "listop" and e[2] == "pending" and e[3] in ("append", "appendleft") and e[4] == OBJ]
+                other_stores = [e for e in f.log if e[0] == "listop" and e[3] in ("append", "appendleft") and e[4] == OBJ and e[2] != "pending"]
+                mutations = [e for e in before if e[0] == "listop"]
+                if f.exit[0] == "raise":
+                    actual = "raise " + f.exit[1]
+                elif len(fires) == 1 and not stores:
+                    actual = "deliver"
+                elif len(stores) == 1 and not fires:
+                    actual = "store"
                 else:
-                    detail = (f"with {'a' if W else 'no'} waiting get, size {'None' if S else 'set'}"
-                              + ("" if L is None else f", limit {'reached' if L else 'not reached'}")
-                              + f": put() must {expected} but does '{actual}'")
-            prev = rows.get(key)
-            if prev is None or (prev[0] and not ok):
-                rows[key] = (ok, detail, f, node)
-    for (row, expected), (ok, detail, f, node) in sorted(rows.items(), key=lambda kv: repr(kv[0])):
-        W, S, L = row
-        label = f"<waiting={'yes' if W else 'no'}, size={'None' if S else 'int'}, limit reached={L}> -> {expected}"
-        ctx.check(ok, "put/decision-table", qp + " | " + label, detail or "", witness=f"abstract pre-state: {f.pre}")
-    for c, (lbad, f) in sorted(bounds.items()):
-        ctx.check(not lbad, "put/size-boundary", c, (lbad or "") + ": QueueOverflow is not raised exactly when the size limit is reached",
-                  witness=f"abstract pre-state: {f.pre}")
-    ctx.check(bool(bounds), "put/size-boundary", qp, "put() never compares len(pending) with size")
-    if not any(f.rule == "put/size-boundary" for f in ctx.findings):
-        ctx.floor("put/decision-table", len(rows), 4, "rows")
+                    actual = f"consumed {len(fires) + len(stores)} times"
+                if W:
+                    expected = "deliver"
+                elif S:
+                    expected = "store"
+                elif L is None:
+                    expected = "consult-limit"
+                else:
+                    expected = "raise QueueOverflow" if L else "store"
+                row = (W, S, L)
+                node = f.exit[2]
+                key = (row, expected)
+                ok = actual == expected and not other_stores
+                detail = None
+                if ok and actual == "deliver":
+                    rec = f.dfrs[fires[0][2]]
+                    if rec["origin"][:2] != ("popped", "waiting"):
+                        ok, detail = False, "the object is delivered to a Deferred that was not taken out of `waiting`"
+                    elif rec["origin"][2] != "first":
+                        ok, detail = False, "the object is delivered to the newest waiting get, not the oldest"
+                if ok and actual.startswith("raise") and mutations:
+                    ok, detail = False, "QueueOverflow is raised after the queue was already modified"
+                if not ok and detail is None:
+                    if expected == "consult-limit":
+                        detail = ("with no waiting get and a size limit set, the outcome does not depend on len(pending) vs size: "
+                                  f"put() does '{actual}' without consulting the limit")
+                    else:
+                        detail = (f"with {'a' if W else 'no'} waiting get, size {'None' if S else 'set'}"
+                                  + ("" if L is None else f", limit {'reached' if L else 'not reached'}")
+                                  + f": put() must {expected} but does '{actual}'")
+                prev = rows.get(key)
+                if prev is None or (prev[0] and not ok):
+                    rows[key] = (ok, detail, f, node)
+        for (row, expected), (ok, detail, f, node) in sorted(rows.items(), key=lambda kv: repr(kv[0])):
+            W, S, L = row
+            label = f"<waiting={'yes' if W else 'no'}, size={'None' if S else 'int'}, limit reached={L}> -> {expected}"
+            ctx.check(ok, "put/decision-table", qp + " | " + label, detail or "", witness=f"abstract pre-state: {f.pre}")
+        for c, (lbad, f) in sorted(bounds.items()):
+            ctx.check(not lbad, "put/size-boundary", c, (lbad or "") + ": QueueOverflow is not raised exactly when the size limit is reached",
+                      witness=f"abstract pre-state: {f.pre}")
+        ctx.check(bool(bounds), "put/size-boundary", qp, "put() never compares len(pending) with size")
+        if not any(f.rule == "put/size-boundary" for f in ctx.findings):
+            ctx.floor("put/decision-table", len(rows), 4, "rows")
 
-    # =============================================================== get
-    get = ctx.func(DEFER, "DeferredQueue.get")
-    qg = Q + ".get"
-    runs = _run_all(interp, get, spec, {})
-    exit_check(ctx, interp, spec, qg, [f for _, fs in runs for f in fs])
-    rows = {}
-    bounds = {}
-    cancellers = set()
-    for fields, finals in runs:
-        P = fields["pending"][1] > 0
-        B = fields["backlog"] == ("none",)
-        for f in finals:
-            L, lnode, lbad = _limit_decision(f, "len(self.waiting)", "self.backlog", qg)
-            if lnode is not None:
-                bounds.setdefault(ctx.construct(qg, lnode), (lbad, f))
-            if lbad:
-                continue
-            mutations = [e for e in f.log if e[0] == "listop"]
-            detail = None
-            if f.exit[0] == "raise":
-                actual = "raise " + f.exit[1]
-            else:
-                v = f.exit[1]
-                actual = "return something that is not a Deferred of this call"
-                if v[0] == "dfr":
-                    rec = f.dfrs[v[1]]
-                    fired = rec["fired"]
-                    if fired is not None and fired[0] == "callback" and fired[1][0] == "obj" and isinstance(fired[1][1], tuple) \
-                            and fired[1][1][:2] == ("popped", "pending") and rec["where"] is None:
-                        actual = "hand out"
-                        if fired[1][1][2] != "first":
-                            detail = "get() hands out the newest stored object, not the oldest (put order lost)"
-                    elif fired is not None and fired[0] == "callback" and fired[1][0] == "obj" and isinstance(fired[1][1], tuple) \
-                            and fired[1][1][0] == "peek":
-                        actual = "hand out without removing"
-                    elif fired is None and rec["origin"] == ("fresh",) and rec["where"] == "waiting":
-                        actual = "wait"
-                        c = rec["canceller"]
-                        if c is None or c[0] != "meth":
-                            detail = ("the queued get has no canceller removing it from `waiting`: after cancellation it still "
-                                      "swallows the next object put")
-                        else:
-                            cancellers.add(c[1])
-                        if not any(e[0] == "listop" and e[2] == "waiting" and e[3] == "append" for e in f.log):
-                            detail = detail or "the new get is not queued behind the older ones"
-                    elif fired is None and rec["where"] is None:
-                        actual = "return a Deferred that is neither fired nor queued"
-            if P:
-                expected = "hand out"
-            elif B:
-                expected = "wait"
-            elif L is None:
-                expected = "consult-limit"
-            else:
-                expected = "raise QueueUnderflow" if L else "wait"
-            ok = actual == expected and detail is None
-            if ok and actual.startswith("raise") and mutations:
-                ok, detail = False, "QueueUnderflow is raised after the queue was already modified"
-            if not ok and detail is None:
-                if expected == "consult-limit":
-                    detail = ("with nothing stored and a backlog limit set, the outcome does not depend on len(waiting) vs backlog: "
-                              f"get() does '{actual}' without consulting the limit")
+    with ctx.section("get"):
+        # =============================================================== get
+        get = ctx.func(DEFER, "DeferredQueue.get")
+        qg = Q + ".get"
+        runs = _run_all(interp, get, spec, {})
+        exit_check(ctx, interp, spec, qg, [f for _, fs in runs for f in fs])
+        rows = {}
+        bounds = {}
+        for fields, finals in runs:
+            P = fields["pending"][1] > 0
+            B = fields["backlog"] == ("none",)
+            for f in finals:
+                L, lnode, lbad = _limit_decision(f, "len(self.waiting)", "self.backlog", qg)
+                if lnode is not None:
+                    bounds.setdefault(ctx.construct(qg, lnode), (lbad, f))
+                if lbad:
+                    continue
+                mutations = [e for e in f.log if e[0] == "listop"]
+                detail = None
+                if f.exit[0] == "raise":
+                    actual = "raise " + f.exit[1]
                 else:
-                    detail = (f"with {'an' if P else 'no'} object stored, backlog {'None' if B else 'set'}"
-                              + ("" if L is None else f", limit {'reached' if L else 'not reached'}")
-                              + f": get() must {expected} but does '{actual}'")
-            key = ((P, B, L), expected)
-            prev = rows.get(key)
-            if prev is None or (prev[0] and not ok):
-                rows[key] = (ok, detail, f)
-    for (row, expected), (ok, detail, f) in sorted(rows.items(), key=lambda kv: repr(kv[0])):
-        P, B, L = row
-        label = f"<stored={'yes' if P else 'no'}, backlog={'None' if B else 'int'}, limit reached={L}> -> {expected}"
-        ctx.check(ok, "get/decision-table", qg + " | " + label, detail or "", witness=f"abstract pre-state: {f.pre}")
-    for c, (lbad, f) in sorted(bounds.items()):
-        ctx.check(not lbad, "get/backlog-boundary", c, (lbad or "") + ": QueueUnderflow is not raised exactly when the backlog limit is reached",
-                  witness=f"abstract pre-state: {f.pre}")
-    ctx.check(bool(bounds), "get/backlog-boundary", qg, "get() never compares len(waiting) with backlog")
-    if not any(f.rule == "get/backlog-boundary" for f in ctx.findings):
-        ctx.floor("get/decision-table", len(rows), 4, "rows")
+                    v = f.exit[1]
+                    actual = "return something that is not a Deferred of this call"
+                    if v[0] == "dfr":
+                        rec = f.dfrs[v[1]]
+                        fired = rec["fired"]
+                        if fired is not None and fired[0] == "callback" and fired[1][0] == "obj" and isinstance(fired[1][1], tuple) \
+                                and fired[1][1][:2] == ("popped", "pending") and rec["where"] is None:
+                            actual = "hand out"
+                            if fired[1][1][2] != "first":
+                                detail = "get() hands out the newest stored object, not the oldest (put order lost)"
+                        elif fired is not None and fired[0] == "callback" and fired[1][0] == "obj" and isinstance(fired[1][1], tuple) \
+                                and fired[1][1][0] == "peek":
+                            actual = "hand out without removing"
+                        elif fired is None and rec["origin"] == ("fresh",) and rec["where"] == "waiting":
+                            actual = "wait"
+                            c = rec["canceller"]
+                            if c is None or c[0] != "meth":
+                                detail = ("the queued get has no canceller removing it from `waiting`: after cancellation it still "
+                                          "swallows the next object put")
+                            else:
+                                cancellers.add(c[1])
+                            if not any(e[0] == "listop" and e[2] == "waiting" and e[3] == "append" for e in f.log):
+                                detail = detail or "the new get is not queued behind the older ones"
+                        elif fired is None and rec["where"] is None:
+                            actual = "return a Deferred that is neither fired nor queued"
+                if P:
+                    expected = "hand out"
+                elif B:
+                    expected = "wait"
+                elif L is None:
+                    expected = "consult-limit"
+                else:
+                    expected = "raise QueueUnderflow" if L else "wait"
+                ok = actual == expected and detail is None
+                if ok and actual.startswith("raise") and mutations:
+                    ok, detail = False, "QueueUnderflow is raised after the queue was already modified"
+                if not ok and detail is None:
+                    if expected == "consult-limit":
+                        detail = ("with nothing stored and a backlog limit set, the outcome does not depend on len(waiting) vs backlog: "
+                                  f"get() does '{actual}' without consulting the limit")
+                    else:
+                        detail = (f"with {'an' if P else 'no'} object stored, backlog {'None' if B else 'set'}"
+                                  + ("" if L is None else f", limit {'reached' if L else 'not reached'}")
+                                  + f": get() must {expected} but does '{actual}'")
+                key = ((P, B, L), expected)
+                prev = rows.get(key)
+                if prev is None or (prev[0] and not ok):
+                    rows[key] = (ok, detail, f)
+        for (row, expected), (ok, detail, f) in sorted(rows.items(), key=lambda kv: repr(kv[0])):
+            P, B, L = row
+            label = f"<stored={'yes' if P else 'no'}, backlog={'None' if B else 'int'}, limit reached={L}> -> {expected}"
+            ctx.check(ok, "get/decision-table", qg + " | " + label, detail or "", witness=f"abstract pre-state: {f.pre}")
+        for c, (lbad, f) in sorted(bounds.items()):
+            ctx.check(not lbad, "get/backlog-boundary", c, (lbad or "") + ": QueueUnderflow is not raised exactly when the backlog limit is reached",
+                      witness=f"abstract pre-state: {f.pre}")
+        ctx.check(bool(bounds), "get/backlog-boundary", qg, "get() never compares len(waiting) with backlog")
+        if not any(f.rule == "get/backlog-boundary" for f in ctx.findings):
+            ctx.floor("get/decision-table", len(rows), 4, "rows")
 
     # =============================================================== canceller
     ctx.check(bool(cancellers), "cancel/canceller-installed", qg, "no path of get() queues a Deferred with a canceller method")
     for cname in sorted(cancellers):
-        cf = ms.get(cname)
-        ctx.need(cf is not None, f"canceller DeferredQueue.{cname}")
-        ctx.functions.add(f"{DEFER}:DeferredQueue.{cname}")
-        qc = f"{Q}.{cname}"
-        cparams = [a.arg for a in cf.args.posonlyargs + cf.args.args][1:]
-        ctx.need(len(cparams) == 1, f"{qc}: canceller takes exactly the Deferred")
-        finals = []
-        for fields, ghost in spec.states():
-            if fields["waiting"][1] == 0:
-                continue
-            st = make_state(fields, ghost)
-            st.pre = f"a get queued in [{st.pre}] is cancelled"
-            d = st.new_dfr(origin=("member", "waiting"), where="waiting", pristine=False)
-            finals += interp.run(cf, st, {cparams[0]: d})
-        exit_check(ctx, interp, spec, qc, finals)
-        bad = None
-        for f in finals:
-            if f.exit[0] != "return":
-                bad = bad or (f, "the canceller raises")
-                continue
-            rec = f.dfrs[1]
-            if rec["where"] is not None or rec["origin"] != ("removed", "waiting"):
-                bad = bad or (f, "the cancelled get stays in `waiting`: the next object put is delivered to it and lost")
-            if rec["fired"] is not None:
-                bad = bad or (f, "the canceller fires the cancelled get")
-            if any(e[0] == "listop" and e[2] == "pending" for e in f.log):
-                bad = bad or (f, "the canceller modifies `pending`")
-        ctx.check(bad is None, "cancel/removes-from-waiting", qc, bad[1] if bad else "",
-                  witness=f"abstract pre-state: {bad[0].pre}" if bad else "")
+        with ctx.section("canceller " + cname):
+            cf = ms.get(cname)
+            ctx.need(cf is not None, f"canceller DeferredQueue.{cname}")
+            ctx.functions.add(f"{DEFER}:DeferredQueue.{cname}")
+            qc = f"{Q}.{cname}"
+            cparams = [a.arg for a in cf.args.posonlyargs + cf.args.args][1:]
+            ctx.need(len(cparams) == 1, f"{qc}: canceller takes exactly the Deferred")
+            finals = []
+            for fields, ghost in spec.states():
+                if fields["waiting"][1] == 0:
+                    continue
+                st = make_state(fields, ghost)
+                st.pre = f"a get queued in [{st.pre}] is cancelled"
+                d = st.new_dfr(origin=("member", "waiting"), where="waiting", pristine=False)
+                finals += interp.run(cf, st, {cparams[0]: d})
+            exit_check(ctx, interp, spec, qc, finals)
+            bad = None
+            for f in finals:
+                if f.exit[0] != "return":
+                    bad = bad or (f, "the canceller raises")
+                    continue
+                rec = f.dfrs[1]
+                if rec["where"] is not None or rec["origin"] != ("removed", "waiting"):
+                    bad = bad or (f, "the cancelled get stays in `waiting`: the next object put is delivered to it and lost")
+                if rec["fired"] is not None:
+                    bad = bad or (f, "the canceller fires the cancelled get")
+                if any(e[0] == "listop" and e[2] == "pending" for e in f.log):
+                    bad = bad or (f, "the canceller modifies `pending`")
+            ctx.check(bad is None, "cancel/removes-from-waiting", qc, bad[1] if bad else "",
+                      witness=f"abstract pre-state: {bad[0].pre}" if bad else "")
 
-    # =============================================================== other mutators, reporting, K5
-    from sa.effects import class_accesses
-    from sa.astx import call_name
-    acc = class_accesses(mod, cls, {"waiting", "pending", "size", "backlog"}, receivers={"self"})
-    done = {"put", "get", "__init__"} | cancellers
-    inlined = {call_name(c)[5:] for m_ in ms.values() for c in ast.walk(m_) if isinstance(c, ast.Call) and (call_name(c) or "").startswith("self.")}
-    for name in sorted({a.func.split(".")[1] for a in acc} - done):
-        if name.startswith("_") and name in inlined:
-            continue
-        f = ms[name]
-        ps = [a.arg for a in f.args.posonlyargs + f.args.args][1:]
-        finals = []
-        for fields, ghost in spec.states():
-            finals += interp.run(f, make_state(fields, ghost), {p: ("obj", p) for p in ps})
-        exit_check(ctx, interp, spec, f"{Q}.{name}", finals)
+    with ctx.section("other mutators"):
+        # =============================================================== other mutators, reporting, K5
+        from sa.effects import class_accesses
+        from sa.astx import call_name
+        acc = class_accesses(mod, cls, {"waiting", "pending", "size", "backlog"}, receivers={"self"})
+        done = {"put", "get", "__init__"} | cancellers
+        inlined = {call_name(c)[5:] for m_ in ms.values() for c in ast.walk(m_) if isinstance(c, ast.Call) and (call_name(c) or "").startswith("self.")}
+        for name in sorted({a.func.split(".")[1] for a in acc} - done):
+            if name.startswith("_") and name in inlined:
+                continue
+            f = ms[name]
+            ps = [a.arg for a in f.args.posonlyargs + f.args.args][1:]
+            finals = []
+            for fields, ghost in spec.states():
+                finals += interp.run(f, make_state(fields, ghost), {p: ("obj", p) for p in ps})
+            exit_check(ctx, interp, spec, f"{Q}.{name}", finals)
     report_interp(ctx, interp)
-    fifo_rule(ctx, mod, cls, MODNAME, "waiting", cancellers, rule="queue/fifo-waiting")
-    fifo_rule(ctx, mod, cls, MODNAME, "pending", set(), rule="queue/fifo-pending", floor=2)
+    with ctx.section("fifo waiting"):
+        fifo_rule(ctx, mod, cls, MODNAME, "waiting", cancellers, rule="queue/fifo-waiting")
+    with ctx.section("fifo pending"):
+        fifo_rule(ctx, mod, cls, MODNAME, "pending", set(), rule="queue/fifo-pending", floor=2)
 
-    # __init__ establishes the invariant and stores the limits
-    init = ctx.func(DEFER, "DeferredQueue.__init__")
-    qi = Q + ".__init__"
-    st = make_state({}, {})
-    iparams = [a.arg for a in init.args.args][1:]
-    try:
-        finals = Interp(mod, cls, _InitSpec(), MODNAME).run(init, st, {p: ("sym", p) for p in iparams})
-    except Unsupported as e:
-        raise AnalysisError(str(e))
-    for f in finals:
-        ok = f.fields.get("waiting") == ("list", 0) and f.fields.get("pending") == ("list", 0)
-        ctx.check(ok, "init/establishes-invariant", qi, "a new queue does not start with empty `waiting` and `pending`")
-        for a in ("size", "backlog"):
-            ctx.check(f.fields.get(a) == ("sym", a), "init/stores-limits", qi + f" | self.{a}",
-                      f"self.{a} is not initialised from the constructor argument `{a}`")
+    with ctx.section("init"):
+        # __init__ establishes the invariant and stores the limits
+        init = ctx.func(DEFER, "DeferredQueue.__init__")
+        qi = Q + ".__init__"
+        st = make_state({}, {})
+        iparams = [a.arg for a in init.args.args][1:]
+        try:
+            finals = Interp(mod, cls, _InitSpec(), MODNAME).run(init, st, {p: ("sym", p) for p in iparams})
+        except Unsupported as e:
+            raise AnalysisError(str(e))
+        for f in finals:
+            ok = f.fields.get("waiting") == ("list", 0) and f.fields.get("pending") == ("list", 0)
+            ctx.check(ok, "init/establishes-invariant", qi, "a new queue does not start with empty `waiting` and `pending`")
+            for a in ("size", "backlog"):
+                ctx.check(f.fields.get(a) == ("sym", a), "init/stores-limits", qi + f" | self.{a}",
+                          f"self.{a} is not initialised from the constructor argument `{a}`")
 
 
 class _InitSpec(Spec):
